@@ -9,7 +9,9 @@ package main
 //   - gorillamux: the router is created with UseEncodedPath, newSrv's trim of one trailing slash of the base path,
 //     the statements that write the loop's `servers` variable (`servers := servers` per iteration, then the path item's own),
 //     NewRouter stores one fresh &routers.Route per (path, server) with Server: s.server, FindRoute returns a copy;
-//   - legacy: NewRouter's route literal has no Server field, FindRoute stores the matched server into the copy it returns,
+//   - legacy: NewRouter's route literal has no Server field, FindRoute stores the matched server into the copy it returns
+//     (the whole `if server != nil { r := *route; r.Server = server; route = &r }` branch is a row); every statement of either
+//     FindRoute that writes through a field, index or pointer (`*.findRoute.fieldWrites`: only the copy and the parameter map),
 //     the server is taken from doc.Servers only (F-C09-9);
 //   - which representation of the URL path is matched: gorillamux the escaped one (UseEncodedPath), legacy url.Path without
 //     servers and url.String() (Servers.MatchURL) with servers;
@@ -60,6 +62,29 @@ func extractRouterFacts(repo string) (string, error) {
 			}
 		}
 		return nil
+	}
+
+	// every assignment of a function body that writes through something (field, index, pointer) rather than to a local name
+	fieldWrites := func(fd *ast.FuncDecl) string {
+		var ws []string
+		ast.Inspect(fd.Body, func(n ast.Node) bool {
+			switch x := n.(type) {
+			case *ast.AssignStmt:
+				for _, l := range x.Lhs {
+					switch l.(type) {
+					case *ast.SelectorExpr, *ast.IndexExpr, *ast.StarExpr:
+						ws = append(ws, src(x))
+						return true
+					}
+				}
+			case *ast.IncDecStmt:
+				if _, ok := x.X.(*ast.Ident); !ok {
+					ws = append(ws, src(x))
+				}
+			}
+			return true
+		})
+		return strings.Join(ws, " | ")
 	}
 
 	// ---- routers/legacy/pathpattern/node.go
@@ -229,6 +254,7 @@ func extractRouterFacts(repo string) (string, error) {
 			return true
 		})
 		fact("gorilla.findRoute.copy", cp)
+		fact("gorilla.findRoute.fieldWrites", fieldWrites(fd))
 		fact("gorilla.findRoute.returns", strings.Join(ret, " | "))
 	} else {
 		miss("gorillamux.Router.FindRoute")
@@ -301,6 +327,20 @@ func extractRouterFacts(repo string) (string, error) {
 			return true
 		})
 		fact("legacy.findRoute.setsRouteServer", setsServer)
+		// the value whose Server is written is a copy of the stored route, made inside the `server != nil` branch, and that
+		// copy is what `route` points to afterwards (KinModel/RouterHist.lean `stepCopy`)
+		cpBranch := ""
+		ast.Inspect(fd.Body, func(n ast.Node) bool {
+			if is, ok := n.(*ast.IfStmt); ok && is.Init == nil && is.Else == nil {
+				body := src(is.Body)
+				if strings.Contains(body, ".Server = ") {
+					cpBranch = "if " + src(is.Cond) + " " + body
+				}
+			}
+			return true
+		})
+		fact("legacy.findRoute.copyBranch", cpBranch)
+		fact("legacy.findRoute.fieldWrites", fieldWrites(fd))
 		fact("legacy.findRoute.serversFrom", serversFrom)
 		// which representation of the path is matched: url.Path without servers, what Servers.MatchURL returns with servers
 		var rem []string
